@@ -10,6 +10,7 @@ import (
 	"io"
 	"math/big"
 	"reflect"
+	"sort"
 	"time"
 
 	"github.com/iotaledger/hive.go/ds/serializableorderedmap"
@@ -650,7 +651,7 @@ func sortedKeys(m map[string]any) []string {
 	for k := range m {
 		ks = append(ks, k)
 	}
-	sortStrings(ks)
+	sort.Strings(ks)
 	return ks
 }
 
@@ -719,7 +720,11 @@ func faultJSONBody(s *simrt.Sim) {
 	if viaJSON {
 		entryPoint = "JSONDecode"
 	}
-	fr := &faultRun{s: s, target: "serix." + entryPoint, class: class}
+	target := "serix.MapDecode"
+	if class == "truncate" || class == "key-duplicated" || class == "flip-sampled" {
+		target = "serix.JSONDecode"
+	}
+	fr := &faultRun{s: s, target: target, class: class}
 	s.Logf("type=%s validate=%v class=%s via=%s doc=%s", e.name, validate, class, entryPoint, clip(doc))
 	decodeTree := func(tree map[string]any) func() (int, bool) {
 		return func() (int, bool) {
@@ -782,7 +787,7 @@ func faultJSONBody(s *simrt.Sim) {
 				v := rep.v()
 				fresh[idx].set(v)
 				s.Fault("json-wrong-type")
-				run(tree, "wrong-json-type:"+site.kind+"<-"+rep.name, fmt.Sprintf("%s (%s, was %s) replaced by %s", site.path, site.kind, jsonTypeName(site.expect), rep.name))
+				run(tree, "wrong-json-type:"+site.kind, fmt.Sprintf("%s (%s, was %s) replaced by %s; via %s", site.path, site.kind, jsonTypeName(site.expect), rep.name, entryPoint))
 			}
 		}
 	case "key-dropped":
@@ -822,7 +827,7 @@ func faultJSONBody(s *simrt.Sim) {
 				text = append(text, vb...)
 				text = append(text, '}')
 				s.Fault("json-key-duplicated")
-				probe(s, &fr.st, fr.target, "key-duplicated<-"+rep.name, fmt.Sprintf("top-level key %q duplicated with a %s value", k, rep.name), text, fr.measure(), decodeText(text))
+				probe(s, &fr.st, fr.target, "key-duplicated", fmt.Sprintf("top-level key %q duplicated with a %s value", k, rep.name), text, fr.measure(), decodeText(text))
 			}
 		}
 	}
